@@ -1,4 +1,5 @@
 import Tibc.Props.C02
+import Tibc.Expect.Packet
 #print axioms Tibc.C02.deliveries_append
 #print axioms Tibc.C02.inv_step
 #print axioms Tibc.C02.deliver_at_most_once
